@@ -210,6 +210,23 @@ def gen_misc(thorough: bool) -> Iterator[tuple[str, list[list[Any]]]]:
             nm = Names()
             st = nm.p() if inner == "op" else Ctl("end") if inner == "end" else Jump("top")
             yield "with-in-if", [wrap([If(False, [nm.h()], [With(kind, st)]), nm.p()], nm, "mid")]
+    # a with-block around a terminator is the whole body of a branch that is followed by other branches: the terminator belongs to the
+    # actor, the routine goes on behind the if / switch / loop body
+    for kind, term in (("actor", "end"), ("object", "hold"), ("performer", "return"), ("actor", "hold")):
+        nm = Names()
+        yield "with-in-if", [wrap([If(False, [nm.h()], [With(kind, Ctl(term))], [(False, [nm.h()], [nm.p()])], None), nm.p()], nm, "mid")]
+        nm = Names()
+        yield "with-in-if", [wrap([If(False, [nm.h()], [With(kind, Ctl(term))], [], [nm.p()]), nm.p()], nm, "mid")]
+        nm = Names()
+        yield "with-in-if", [wrap([If(False, [nm.h()], [nm.p()], [(True, [nm.h()], [With(kind, Ctl(term))])], [nm.p()]), nm.p()], nm, "mid")]
+        nm = Names()
+        yield "with-in-if", [wrap([If(True, [nm.h(), nm.h()], [nm.p(), With(kind, Ctl(term))], [], [With(kind, Ctl(term))]), nm.p()], nm, "mid")]
+        nm = Names()
+        yield "with-in-switch", [wrap([Switch(nm.k, [Case([1], [With(kind, Ctl(term)), Ctl("break")]), Case([2], [With(kind, Ctl(term))]), Default([nm.p()])]), nm.p()], nm, "mid")]
+        nm = Names()
+        yield "with-in-loop", [wrap([While(False, nm.h(), [With(kind, Ctl(term))]), nm.p()], nm, "mid")]
+        nm = Names()
+        yield "with-in-loop", [wrap([Forever([With(kind, Ctl(term)), If(False, [nm.h()], [Ctl("break_loop")])]), nm.p()], nm, "mid")]
     # labels, jumps, calls
     yield "labels", [[Jump("a"), Label("b"), P("x"), Ctl("end"), Label("a"), Jump("z"), P("y"), Jump("b"), Label("z")]]
     yield "labels", [[Label("a")]]
